@@ -438,4 +438,242 @@ theorem breakAt_cases (te : Bool) (input : List Char) (index : Nat) (hi : index 
     have : i ≤ (rposition notWsExceptLf (List.take (index + 1) input)).getD index := hle
     simp [this]
 
+/-! ## `break_string` -/
+
+/-- Where `break_string` calls `break_at`: at a boundary grapheme, or directly before white space (or
+at the last grapheme). -/
+def CallSite (input : List Char) (index : Nat) : Prop :=
+  isValidLinebreak input index = true ∨ ∀ c, input[index + 1]? = some c → isWs c = true
+
+theorem isValidLinebreak_of_isWs {input : List Char} {i : Nat} {c : Char} (h : input[i]? = some c)
+    (hc : isWs c = true) : isValidLinebreak input i = true := by
+  unfold isValidLinebreak
+  simp [h, hc]
+
+theorem searchRight_cases (te : Bool) (input : List Char) (mwi : Nat) :
+    searchRight te input mwi = .endOfInput input ∨
+      ∃ index, index < input.length ∧ CallSite input index ∧ searchRight te input mwi = breakAt te input index := by
+  unfold searchRight
+  cases h : firstValidFrom input mwi (input.length - mwi) with
+  | none => left; rfl
+  | some index =>
+    right
+    obtain ⟨h1, h2, h3⟩ := firstValidFrom_range h
+    exact ⟨index, by omega, Or.inl h3, rfl⟩
+
+theorem searchPunct_cases (te : Bool) (input : List Char) (mwi : Nat) (hm : mwi < input.length) :
+    searchPunct te input mwi = .endOfInput input ∨
+      ∃ index, index < input.length ∧ CallSite input index ∧ searchPunct te input mwi = breakAt te input index := by
+  unfold searchPunct
+  cases h : lastValidBelow input mwi with
+  | none => exact searchRight_cases te input mwi
+  | some index =>
+    obtain ⟨h1, h2⟩ := lastValidBelow_lt h
+    simp only
+    split
+    · right; exact ⟨index, by omega, Or.inl h2, rfl⟩
+    · exact searchRight_cases te input mwi
+
+theorem searchBreak_cases (te : Bool) (input : List Char) (mwi : Nat) (hm : mwi < input.length) :
+    searchBreak te input mwi = .endOfInput input ∨
+      ∃ index, index < input.length ∧ CallSite input index ∧ searchBreak te input mwi = breakAt te input index := by
+  unfold searchBreak
+  cases h : rposition isWs (input.take mwi) with
+  | none => exact searchPunct_cases te input mwi hm
+  | some index =>
+    have h1 := rposition_lt h
+    simp only [List.length_take] at h1
+    have h1' : index < mwi := by omega
+    obtain ⟨⟨c, hc, hws⟩, _⟩ := rposition_spec h
+    rw [List.getElem?_take] at hc
+    simp only [h1', if_true] at hc
+    simp only
+    split
+    · right; exact ⟨index, by omega, Or.inl (isValidLinebreak_of_isWs hc hws), rfl⟩
+    · exact searchPunct_cases te input mwi hm
+
+/-- `break_string` either gives up (`EndOfInput` with the whole input) or calls `break_at` at an index
+inside the input: no slice of string.rs is out of range. -/
+theorem breakString_cases (mw : Nat) (te : Bool) (le input : List Char) :
+    breakString mw te le input = .endOfInput input ∨
+      ∃ index, index < input.length ∧ CallSite input index ∧
+        breakString mw te le input = breakAt te input index := by
+  unfold breakString
+  simp only
+  split
+  · left; rfl
+  · rename_i hm
+    have hne := ne_nil_of_maxWidthIndex hm
+    have hlt := maxWidthIndex_lt mw input hne
+    split
+    · rename_i hcond
+      right
+      refine ⟨maxWidthIndex mw input - 1, by omega, Or.inr ?_, rfl⟩
+      intro c hc
+      have h1 : maxWidthIndex mw input - 1 + 1 = maxWidthIndex mw input := by omega
+      rw [h1] at hc
+      have : input.getD (maxWidthIndex mw input) ' ' = c := by simp [List.getD, hc]
+      simp only [Bool.and_eq_true] at hcond
+      rw [← this]
+      exact hcond.2
+    · cases hu : detectUrl input (maxWidthIndex mw input) with
+      | some urlEnd =>
+        right
+        refine ⟨urlEnd, detectUrl_lt hlt hu, Or.inr ?_, rfl⟩
+        exact detectUrl_next_ws (by omega) hu
+      | none => exact searchBreak_cases te input _ hlt
+
+/-- What one call of `break_string` returns, relative to its input (`te` = `trim_end`). -/
+inductive Step (te : Bool) (input : List Char) : Snippet → Prop
+  /-- the input cannot be broken -/
+  | eoi : Step te input (.endOfInput input)
+  /-- `trim_end`: the line up to the first line feed, trimmed -/
+  | feedTrim (i : Nat) : te = true → input[i]? = some '\n' → (∀ c ∈ input.take i, isNl c = false) →
+      Step te input (.endWithLineFeed (trimEndWs (input.take i) ++ ['\n']) (i + 1))
+  /-- no `trim_end`: the first `n` graphemes, the last of which is a line feed -/
+  | feed (n : Nat) : te = false → 1 ≤ n → input[n - 1]? = some '\n' →
+      Step te input (.endWithLineFeed (input.take n) n)
+  /-- `trim_end`: `n` graphemes are read, the first `m` of them are the line, the others are blank;
+  the line holds no line feed; the cut is next to a blank or a boundary -/
+  | lineTrim (m n : Nat) : te = true → m ≤ n → 1 ≤ n → n ≤ input.length →
+      ((input.take n).drop m).all blank = true → (∀ c ∈ input.take m, isNl c = false) →
+      (m < n ∨ CallSite input (n - 1)) →
+      Step te input (.lineEnd (input.take m) n)
+  /-- no `trim_end`: the first `n` graphemes, without a line feed, not ending in a backslash, and the
+  next grapheme is not white space -/
+  | line (n : Nat) : te = false → 1 ≤ n → (∀ c ∈ input.take n, isNl c = false) →
+      (∃ c, input[n - 1]? = some c ∧ c ≠ '\\') → (∃ d, input[n]? = some d ∧ isWs d = false) →
+      Step te input (.lineEnd (input.take n) n)
+
+theorem all_blank_no_nl {l : List Char} (h : l.all blank = true) : ∀ c ∈ l, isNl c = false := by
+  intro c hc
+  have := List.all_eq_true.mp h c hc
+  unfold blank at this
+  simp at this
+  exact this.2
+
+theorem isWs_backslash : isWs '\\' = false := by decide
+
+theorem blank_ne_backslash {c : Char} (h : blank c = true) : c ≠ '\\' := by
+  intro hc; subst hc; simp [blank, isWs_backslash] at h
+
+theorem valid_ne_backslash {input : List Char} {i : Nat} {c : Char} (h : input[i]? = some c)
+    (hv : isValidLinebreak input i = true) : c ≠ '\\' := by
+  intro hc; subst hc
+  unfold isValidLinebreak at hv
+  simp [h, isWs_backslash] at hv
+
+theorem mem_take_of_le {l : List Char} {a b : Nat} {d : Char} (hab : a ≤ b) (h : d ∈ l.take a) : d ∈ l.take b := by
+  have : l.take a = (l.take b).take a := by rw [List.take_take, Nat.min_eq_left hab]
+  rw [this] at h
+  exact List.mem_of_mem_take h
+
+theorem exists_concat_of_ne_nil {l : List Char} (h : l ≠ []) : ∃ l' z, l = l' ++ [z] :=
+  ⟨l.dropLast, l.getLast h, (List.dropLast_concat_getLast h).symm⟩
+
+theorem breakAt_step (te : Bool) (input : List Char) (index : Nat) (hi : index < input.length)
+    (hcs : CallSite input index) : Step te input (breakAt te input index) := by
+  rcases breakAt_cases te input index hi with ⟨i, hle, hnl, hbefore, heq⟩ | ⟨hnonl, heq⟩
+  · rw [heq]
+    cases te with
+    | true => simpa using Step.feedTrim i rfl hnl hbefore
+    | false =>
+      simp only [Bool.false_eq_true, if_false]
+      rw [← take_succ_of_getElem? hnl]
+      exact Step.feed (i + 1) rfl (by omega) (by simpa using hnl)
+  · rw [heq]
+    have himw := indexMinusWs_le input index hi
+    have hblank := indexMinusWs_blank input index
+    rcases breakAtRight_cases te input index (indexMinusWs input index) hi with
+      ⟨ws, rest, hd, hws, hte, heq2⟩ | ⟨ws, c, rest, hd, hws, hc, hcnl, heq2⟩ | ⟨hall, heq2⟩
+    · -- a line feed behind blanks
+      rw [heq2]
+      subst hte
+      have h1 := take_add_of_drop_eq (by omega) (show input.drop (index + 1) = ws ++ ('\n' :: rest) from hd)
+      have h2 : input[index + 1 + ws.length]? = some '\n' := by
+        have := congrArg (fun l => l[0]?) h1.2
+        simpa [List.getElem?_drop] using this
+      have h3 : input.take (index + 1 + ws.length + 1) = input.take (index + 1) ++ ws ++ ['\n'] := by
+        rw [take_succ_of_getElem? h2, h1.1]
+      rw [← h3]
+      exact Step.feed _ rfl (by omega) (by simpa using h2)
+    · rw [heq2]
+      have h1 := take_add_of_drop_eq (by omega) (show input.drop (index + 1) = ws ++ (c :: rest) from hd)
+      have h2 : input[index + 1 + ws.length]? = some c := by
+        have := congrArg (fun l => l[0]?) h1.2
+        simpa [List.getElem?_drop] using this
+      have hlen : index + 1 + ws.length < input.length := (List.getElem?_eq_some_iff.mp h2).1
+      cases te with
+      | true =>
+        simp only [if_true]
+        refine Step.lineTrim (indexMinusWs input index + 1) (index + 1 + ws.length) rfl (by omega) (by omega)
+          (by omega) ?_ ?_ ?_
+        · -- the dropped part: blanks before `index`, then `ws`
+          rw [h1.1, List.drop_append_of_le_length (by simp; omega), List.all_append, hblank, hws]; rfl
+        · intro d hd'
+          apply hnonl d
+          exact mem_take_of_le (by omega) hd'
+        · by_cases hw : ws.length = 0
+          · by_cases hm : indexMinusWs input index < index
+            · left; omega
+            · right
+              have : index + 1 + ws.length - 1 = index := by omega
+              rw [this]; exact hcs
+          · left; omega
+      | false =>
+        simp only [Bool.false_eq_true, if_false]
+        rw [← h1.1]
+        have hcws : isWs c = false := by
+          have := hcnl rfl
+          unfold notWsExceptLf at hc
+          simpa [this] using hc
+        refine Step.line _ rfl (by omega) ?_ ?_ ⟨c, h2, hcws⟩
+        · intro d hd'
+          rw [h1.1] at hd'
+          rcases List.mem_append.mp hd' with h | h
+          · exact hnonl d h
+          · exact all_blank_no_nl hws d h
+        · -- the last grapheme of the line is not a backslash
+          by_cases hw : ws = []
+          · subst hw
+            simp only [List.length_nil, Nat.add_zero, Nat.add_sub_cancel]
+            obtain ⟨e, he, _⟩ := List.getElem?_eq_some_iff.mpr ⟨hi, rfl⟩ |> fun h => (⟨input[index], h, trivial⟩ : ∃ e, input[index]? = some e ∧ True)
+            refine ⟨e, he, ?_⟩
+            rcases hcs with hv | hn
+            · exact valid_ne_backslash he hv
+            · have := hn c (by simpa using h2)
+              rw [hcws] at this; cases this
+          · obtain ⟨l', z, rfl⟩ := exists_concat_of_ne_nil hw
+            refine ⟨z, ?_, blank_ne_backslash (by rw [List.all_append] at hws; have := (Bool.and_eq_true _ _ ▸ hws).2; simpa using this)⟩
+            have h4 := congrArg (fun l => l[index + 1 + l'.length]?) h1.1
+            rw [List.getElem?_take] at h4
+            simp only [List.length_append, List.length_cons, List.length_nil] at h4 ⊢
+            have hlt : index + 1 + l'.length < index + 1 + (l'.length + (0 + 1)) := by omega
+            simp only [hlt, if_true] at h4
+            have h5 : index + 1 + (l'.length + (0 + 1)) - 1 = index + 1 + l'.length := by omega
+            rw [h5, h4]
+            have hlen2 : (input.take (index + 1)).length = index + 1 := by simp; omega
+            rw [List.getElem?_append_right (by omega), hlen2]
+            simp
+    · rw [heq2]
+      cases te with
+      | true =>
+        simp only [if_true]
+        refine Step.lineTrim (indexMinusWs input index + 1) (index + 1) rfl (by omega) (by omega) (by omega)
+          hblank ?_ ?_
+        · intro d hd'
+          apply hnonl d
+          exact mem_take_of_le (by omega) hd'
+        · by_cases hm : indexMinusWs input index < index
+          · left; omega
+          · right; simpa using hcs
+      | false => simpa using Step.eoi
+
+/-- Every answer of `break_string` is one of the five shapes of `Step`. -/
+theorem breakString_step (mw : Nat) (te : Bool) (le input : List Char) :
+    Step te input (breakString mw te le input) := by
+  rcases breakString_cases mw te le input with h | ⟨index, hi, hcs, h⟩
+  · rw [h]; exact Step.eoi
+  · rw [h]; exact breakAt_step te input index hi hcs
+
 end RF.Lemmas.StringFmt
